@@ -19,7 +19,7 @@ Reading rules (trusted; the Lean side only sees the skeleton):
   summary says it writes; storing `v` inside `x` makes `x` hold what `v` holds;
 * `return e` / `yield e` hands back what `e` may hold;
 * a parameter whose default is a number / string / bool literal holds an immutable value and is left out; `x += "..."`,
-  `x += 1` rebind; a tuple / list / dict display is a new container (iterating it in place reaches its elements).
+  `x += 1` rebind; a tuple / list / dict display or comprehension is a new container (iterating it in place reaches its elements).
 """
 import ast
 
@@ -231,7 +231,8 @@ class Body:
                 if set(tn) & set(inner_al):
                     al_through += i_al
                 body = seq(i_ops, star(seq(self.assign(g.target, i_al), *[self.ev(c)[0] for c in g.ifs], body)))
-            return body, uniq([a for a in inner_al if a not in targets] + al_through)
+            # like a display or `list(x)`: the comprehension is a NEW container (its elements are not tracked)
+            return body, []
         if isinstance(e, (ast.Yield, ast.YieldFrom)):
             o, a = self.ev(e.value)
             return seq(o, ("use", "ret", uniq(a)) if a else NOP), []
